@@ -11,8 +11,8 @@ BASELINE_OFF = "for m in api/v3 api/v3alpha util/maven util/pypi util/resolve ut
 CLAIMS = {
     "C01": (
         "property-based testing (rapid) of order laws + metamorphic relations over generated version triples; native Go fuzzing in the thorough tier",
-        "Generated-input search: for each of the nine systems, triples of grammar-generated and neighbour-mutated versions are checked against the order laws (reflexive, antisymmetric, transitive, congruent), build-metadata invariance, call-history independence and sort-permutation invariance. Holds on everything explored; not a proof. Right level because the property is a universally quantified algebraic law over a string domain with an executable oracle.",
-        "Trusts the generators' coverage of each version grammar (DESIGN §6); wildcard patterns are treated as outside the version domain; two listed Maven findings are stepped around by narrow classes (known_findings.txt).",
+        "Generated-input search: for each of the nine systems, triples of grammar-generated and neighbour-mutated versions are checked against the order laws (reflexive, antisymmetric, transitive, congruent), build-metadata invariance, call-history independence and sort-permutation invariance; wildcard patterns (1.x, 1.2.*, NuGet floating versions) mixed with the short and zero-padded spellings of their numbers are asked the same laws. Holds on everything explored; not a proof. Right level because the property is a universally quantified algebraic law over a string domain with an executable oracle.",
+        "Trusts the generators' coverage of each version grammar (DESIGN §6); wildcard patterns are asked the laws in their own checks (four systems) and left out of the others; two listed Maven findings are stepped around by narrow classes (known_findings.txt).",
         "DESIGN.md §7 C01",
     ),
     "C09": (
@@ -24,7 +24,7 @@ CLAIMS = {
     "C10": (
         "property-based testing (rapid): round-trip oracle Parse(Canon(v)) over generated versions of nine systems; native Go fuzzing in the thorough tier",
         "Generated-input search: grammar-generated and neighbour-mutated versions of the nine systems are canonicalised, re-parsed, compared with the original and re-canonicalised (both showBuild values); equal canonical strings must compare equal; pypi.CanonVersion must agree with Parse+Canon and be the identity on unparsable text. Holds on everything explored; not a proof.",
-        "Trusts the generators' coverage of each version grammar; RubyGems prerelease versions and wildcard patterns are outside the domain as the property states.",
+        "Trusts the generators' coverage of each version grammar; RubyGems prerelease versions are outside the domain as the property states; wildcard patterns are round-tripped in their own checks (four systems).",
         "DESIGN.md §7 C10",
     ),
     "C02": (
@@ -113,7 +113,7 @@ CLAIMS = {
     ),
     "C07": (
         "property-based testing (rapid) against an independent breadth-first reference model (exact, range-free universes) and validity predicates with Maven's VersionRange as range oracle (all universes)",
-        "Generated Maven universes and roots are resolved; on universes without ranges the graph must equal (harness isomorphism labeller) the graph of a reference model written from the statement: nearest declaration wins, root dependencyManagement overrides transitive versions, exclusions accumulate along the creating path, test/optional/provided only from the root, war/ear/rar not traversed; on all universes predicates are checked: one version per artifact key, every range edge points inside its range (maven-artifact VersionRange), no edge to an excluded artifact, no transitive test/optional/provided edge, war/ear/rar-only nodes have no out-edges. Holds on everything explored; not a proof. On all universes nine predicates are checked, among them that every transitive edge to an artifact the root manages carries the managed version and the documented order of preference between soft versions and ranges (tolerant of requirements made by versions that are no longer in the graph). One recorded finding (two versions of one artifact when a node is shared between two types of it) is recognised by its mechanism and counted.",
+        "Generated Maven universes and roots are resolved; on universes without ranges the graph must equal (harness isomorphism labeller) the graph of a reference model written from the statement: nearest declaration wins, root dependencyManagement overrides transitive versions, exclusions accumulate along the creating path, test/optional/provided only from the root, war/ear/rar not traversed; on all universes predicates are checked: one version per artifact key, every range edge points inside its range (maven-artifact VersionRange), no edge to an excluded artifact, no transitive test/optional/provided edge, war/ear/rar-only nodes have no out-edges. Holds on everything explored; not a proof. On all universes nine predicates are checked, among them that every transitive edge to an artifact the root manages carries the managed version and that the selected version is a candidate of the documented preference between soft versions and ranges (tolerant of requirements made by versions that are no longer in the graph); the order of preference itself is decided exactly, edge by edge, against a model of the documented rule on universes whose traversal cannot change between re-resolutions (single-version carriers, multi-version leaves). One recorded finding (two versions of one artifact when a node is shared between two types of it) is recognised by its mechanism and counted.",
         "Trusts the harness reference model and maven-artifact 3.8.7's VersionRange. The property speaks of returned graphs: resolutions that end in an error (missing version, or a dependency back on the root's own artifact at another version) are counted as outside it.",
         "DESIGN.md §7 C07, §12.2, §12.6",
     ),
